@@ -221,7 +221,7 @@ func runEncCases(c *h.Ctx, r *h.Report, n int) {
 }
 
 func runSubList(c *h.Ctx, r *h.Report) {
-	r.Rule = "add/remove/dispatch/walk histories (<= 60 ops) on NewSubscriberList(size in {1,2,8,0=default}); selectors and topics from a per-case pool (templates with expansions, literals with U+0000/U+0001, empty strings, duplicates, multi-byte text, '*'), 1-3 topics per update in random order, private on/off with claim quadrants. Non-trivial = history in which some update signature is re-dispatched with a different recipient set (an add/remove changed its answer) or in which there are more distinct signatures than cache slots (eviction); plus encode/decode cases with >1 topic containing the delimiter/escape scalars. Distinct by content."
+	r.Rule = "add/remove/dispatch/walk histories (<= 60 ops, plus lists of 1100-2200 subscribers walked and matched) on NewSubscriberList(size in {1,2,8,0=default}); selectors and topics from a per-case pool (templates with expansions, literals with U+0000/U+0001, empty strings, duplicates, multi-byte text, '*'), 1-3 topics per update in random order, private on/off with claim quadrants. Non-trivial = history in which some update signature is re-dispatched with a different recipient set (an add/remove changed its answer) or in which there are more distinct signatures than cache slots (eviction); plus encode/decode cases with >1 topic containing the delimiter/escape scalars. Distinct by content."
 	o := gen.NewOracle()
 	if c.Replay != "" {
 		var rp struct {
@@ -233,6 +233,21 @@ func runSubList(c *h.Ctx, r *h.Report) {
 		return
 	}
 	runEncCases(c, r, c.Scale(1000, 20000))
+	// a list larger than any internal chunk or page: 1100-2200 subscribers, some removed, walked and matched
+	for k := 0; k < c.Scale(1, 4); k++ {
+		rr := c.Rand.Fork()
+		big := sfCase{Cap: 8}
+		nb := 1100 + rr.Intn(1100)
+		for i := 0; i < nb; i++ {
+			big.Ops = append(big.Ops, sfOp{Op: "add", Label: i, Sels: []string{h.Pick(rr, []string{"t", "u", "*"})}})
+		}
+		for i := 5; i < nb; i += 211 {
+			big.Ops = append(big.Ops, sfOp{Op: "remove", Label: i})
+		}
+		big.Ops = append(big.Ops, sfOp{Op: "walk"}, sfOp{Op: "match", Topics: []string{"t"}}, sfOp{Op: "match", Topics: []string{"u", "t"}}, sfOp{Op: "walk"})
+		runSfCase(c, r, o, big)
+		r.Count("case:more-than-a-thousand-subscribers")
+	}
 	n := c.Scale(600, 10000)
 	for i := 0; i < n; i++ {
 		rr := c.Rand.Fork()
